@@ -176,7 +176,7 @@ class SearchKey(Parseable[bytes]):
             inverse = True
             buf = buf[match.end(0):]
         try:
-            seq_set, buf = SequenceSet.parse(buf, params)
+            seq_set, buf = SequenceSet.parse(buf, params.copy(uid=False))
         except NotParseable:
             pass
         else:
